@@ -17,7 +17,7 @@ LEVEL = "exploration"
 RULE = ("full grid: command {onboard, unlock, changepin, pubkeys} x device state (mode "
         "{bootloader, signer, ui-heartbeat, unknown} x onboarded {y,n} x echo {ok,bad}) x "
         "platform {Ledger, SGX} x PIN source {option, prompt} x PIN {valid, 7 chars, 9 chars, "
-        "digits only, non-alphanumeric, empty} x any-pin flag x operator answers {yes, Yes, "
+        "digits only, non-alphanumeric, non-ASCII letters/digits of 8 bytes, empty} x any-pin flag x operator answers {yes, Yes, "
         "YES, no, n, other-then-yes, other-then-no, EOF} x no-unlock / no-exec, each on a fresh "
         "simulated device through the real admin commands. The APDU log (SEED, SEND_PIN, WIPE, "
         "UNLOCK, CHANGE_PIN, SGX_ONBOARD, SGX_UNLOCK, SGX_CHANGE_PASSWORD), the outputs of "
@@ -37,7 +37,12 @@ FLOORS = {"quick": {"evaluations": 2500, "onboard_carried_out": 30, "onboard_ref
 EXHAUSTIVE = {"quick": False, "thorough": True}
 
 PINS = {"valid": "abcd1234", "valid2": "Zz345678", "short": "abc1234", "long": "abcd12345",
-        "digits": "12345678", "symbol": "abcd123!", "empty": "", "space": "abcd 123"}
+        "digits": "12345678", "symbol": "abcd123!", "empty": "", "space": "abcd 123",
+        # eight BYTES once encoded, each of which is a Latin-1 letter or digit, but not
+        # eight alphanumerics: accented letter (2 bytes), full-width digit (3 bytes),
+        # and eight characters that are letters in Unicode only
+        "accented": "abcde1\u00fc", "fullwidth": "abcd1\uff12", "onlyletters": "\u00e9" * 4,
+        "digits-accented": "123456\u00fc"}
 ANSWERS = {"yes": "yes\n", "Yes": "Yes\n", "YES": "YES\n", "no": "no\n", "n": "n\n",
            "No": "No\n", "other-yes": "maybe\ny\nyes\n", "other-no": "yep\nNO\n", "eof": "",
            "yes-space": " yes\n"}
